@@ -266,7 +266,20 @@ def f_literal_with_pyformat_placeholder(prog, idxs, ctx):
     return False
 
 
+def f_mssql_offset_in_subquery(prog, idxs, ctx):
+    """slice_head with an offset that ends up inside a subquery (an alias() follows it)."""
+    seen_offset = False
+    for i in idxs:
+        st = prog["steps"][i]
+        if st["verb"] == "slice_head" and st.get("offset", 0) > 0:
+            seen_offset = True
+        if seen_offset and st["verb"] == "alias":
+            return True
+    return False
+
+
 FEATURES = {
+    "mssql_offset_in_subquery": f_mssql_offset_in_subquery,
     "literal_with_pyformat_placeholder": f_literal_with_pyformat_placeholder,
     "sqlite_date_to_datetime_compared": f_sqlite_date_to_datetime_compared,
     "group_by_constant_column": f_group_by_constant_column,
